@@ -478,6 +478,9 @@ BodyFailures(req, h, bs, toks, drained) ==
            LET sz == Size(h.cr.a, h.cr.b)
                exp == <<D(Mod251(h.cr.a), IF IsSmall(sz) THEN ToNat(sz) ELSE B)>>
            IN ~TokPrefix(ptoks0, exp) \/ (clean /\ IsSmall(sz) /\ ptoks0 # exp)
+     \* (an entity that honoured its contract to the end gets its bytes delivered, not an aborted
+     \*  transfer: the body of a 200 / 206 never fails on its own)
+     \/ id = "C02" /\ kind \in {"full", "single", "multi"} /\ honest /\ bs.term = "err"
      \* (multipart: under every part header exactly the bytes its own Content-Range names -- whatever
      \*  the request asked for, which is C03's and C06's business)
      \/ id = "C02" /\ kind = "multi" /\ honest /\
